@@ -40,13 +40,15 @@ impl Findings {
                     _ => vec![],
                 };
                 for p in props {
+                    // a finding that shows in several properties may list one witness per property
+                    let witness = if f["witness_by_property"][&p].is_object() { f["witness_by_property"][&p].clone() } else { f["witness"].clone() };
                     out.all.push(Finding {
                         id: f["id"].as_str().unwrap_or("").to_string(),
                         property: p,
                         status: f["status"].as_str().unwrap_or("").to_string(),
                         what: f["what"].as_str().unwrap_or("").to_string(),
                         signature: f["signature"].as_str().unwrap_or("").to_string(),
-                        witness: f["witness"].clone(),
+                        witness,
                     });
                 }
             }
